@@ -17,7 +17,7 @@ pub struct C19;
 const LIMIT: Duration = Duration::from_secs(5);
 
 /// fault name -> shell script body of the `rustfmt` stub (None = no stub: PATH holds an empty directory only)
-pub const FAULTS: [(&str, Option<&str>); 10] = [
+pub const FAULTS: [(&str, Option<&str>); 12] = [
     ("absent", None),
     ("exit1-after-reading", Some("cat >/dev/null\nexit 1\n")),
     ("exit1-without-reading", Some("exit 1\n")),
@@ -29,6 +29,11 @@ pub const FAULTS: [(&str, Option<&str>); 10] = [
     ("prints-invalid-utf8", Some("cat >/dev/null\nprintf '\\377\\376\\200'\nexit 0\n")),
     // reads everything, waits, then prints its input unchanged (a slow but correct formatter)
     ("slow-identity", Some("input=$(cat)\nsleep 0.3\nprintf '%s\\n' \"$input\"\nexit 0\n")),
+    // fails noisily without reading its input: more than a pipe buffer on stderr (a library that pipes stderr and only
+    // drains it after writing all of stdin deadlocks on large modules)
+    ("noisy-stderr-exit1-without-reading", Some("head -c 400000 /dev/zero | tr '\\0' 'x' >&2\nexit 1\n")),
+    // reads everything, prints a prefix of it, then is killed by a signal (a truncated program must never be returned)
+    ("partial-output-then-killed", Some("input=$(cat)\nprintf '%s' \"$input\" | head -c 400\nkill -9 $$\n")),
 ];
 
 /// Canonical token text: trailing commas before a closing delimiter dropped.
